@@ -56,6 +56,9 @@ def cases(tier, seed):
         for layers in stacks1 + (stacks2 if tier == "thorough" else stacks2[:4]):
             out.append({"name": "nested.submit/%s/%s" % (base, ">".join(layers)), "kind": "nested", "base": base,
                         "layers": layers})
+    for above in (["map"], ["flat_map"], ["timeout"], ["cos"], ["throttle"], ["map", "map"]):
+        out.append({"name": "nested.race/retry>%s" % ">".join(above), "kind": "nestedrace", "above": above,
+                    "cap": 20 if tier == "quick" else None})
     for layers in stacks1 + (stacks2 if tier == "thorough" else stacks2[:6]):
         out.append({"name": "nested.cb/%s" % ">".join(layers), "kind": "nestedcb", "layers": layers})
     nf = 16 if tier == "quick" else 160
@@ -226,6 +229,102 @@ NEST_SITES = ["callable", "map_fn", "error_fn", "flat_fn", "poll_fn", "cancel_fn
               "count_fn", "cb_before", "cb_after"]
 
 
+def nested_suffix(site, layers, target_level):
+    """@nested/<site>/<relation of the target executor to the retry layer>"""
+    rel = "no-retry"
+    if "retry" in layers:
+        r = layers.index("retry") + 1  # executor index of the (lowest) retry layer
+        rel = "target-above-retry" if target_level > r else ("target-is-retry" if target_level == r else "target-below-retry")
+    from . import c04 as _self  # noqa
+    inv = [d for d in LM.deadlocks if any("RetryExecutor" in t for t in d["threads"])]
+    return "@nested/%s/%s%s" % (site, rel, "/retry-thread-in-cycle" if inv else "")
+
+
+class NestedRaceScenario(object):
+    """sync > retry > X: the callable, run inline by the retry thread, submits to the outermost executor
+    while the client is still inside that executor's submit() for the same future."""
+
+    def __init__(self, case):
+        self.case = case
+
+    def setup(self):
+        ME = instr.ME
+        ctx = Ctx()
+        base = ctx.own(ME.Executors.sync())
+        cur = ctx.own(base.with_retry(max_attempts=1))
+        for t in self.case["above"]:
+            if t == "map":
+                cur = cur.with_map(lambda x: x)
+            elif t == "flat_map":
+                cur = cur.with_flat_map(lambda x: ME.futures.f_return(x))
+            elif t == "timeout":
+                cur = cur.with_timeout(100.0)
+            elif t == "cos":
+                cur = cur.with_cancel_on_shutdown()
+            elif t == "throttle":
+                cur = cur.with_throttle(2)
+            ctx.own(cur)
+        ctx.top = cur
+        ctx.nested = []
+        ctx.done = {"n": 0}
+
+        def job():
+            if ctx.done["n"] == 0:
+                ctx.done["n"] += 1
+                try:
+                    ctx.nested.append(ctx.top.submit(lambda: "nested"))
+                except RuntimeError:
+                    pass
+            return 1
+        ctx.job = job
+        return ctx
+
+    def victim_role(self, ctx):
+        return "V"
+
+    def start_victim(self, ctx):
+        def client():
+            ctx.f = ctx.top.submit(ctx.job)
+        return ctx.actor("V", client).go()
+
+    def intervene(self, ctx):
+        # nothing to do: the retry thread runs the callable on its own while the client is suspended
+        import time as _t
+        _t.sleep(0.03)
+
+    def finish(self, ctx):
+        import time as _t
+        t_end = _t.time() + 5
+        while _t.time() < t_end and not (getattr(ctx, "f", None) is not None and ctx.f.done()):
+            _t.sleep(0.005)
+
+    def hang_key(self, ctx, stuck):
+        return "nested.race/%s" % ">".join(self.case["above"])
+
+    def oracle(self, ctx, res, info):
+        if info.get("hit"):
+            res.key("nested.race", ">".join(self.case["above"]), info.get("site"))
+
+
+class NestedRaceSweep(Sweep):
+    pass
+
+
+def run_nested_race(case, res):
+    rng = random.Random("c04nr/%s/%s" % (case["seed"], case["name"]))
+    orig = harness.check_common
+    suffix = "@nested/callable/target-above-retry/retry-thread-in-cycle"
+
+    def cc(res_, prop_prefix="", deadlock_suffix=""):
+        inv = [d for d in LM.deadlocks if any("RetryExecutor" in t for t in d["threads"])]
+        return orig(res_, prop_prefix, suffix if inv else "@nested.race")
+    harness.check_common = cc
+    try:
+        Sweep(NestedRaceScenario(case), res, "rt", case["name"]).run(case["cap"], rng, per_site=2)
+    finally:
+        harness.check_common = orig
+
+
 def run_nested(case, res):
     ME = instr.ME
     Executors = ME.Executors
@@ -353,7 +452,7 @@ def run_nested(case, res):
                 a = ctx.actor("C", client).go()
                 why = drive([a], timeout=60.0)
                 res.execs += 1
-                check_common(res)
+                check_common(res, deadlock_suffix=nested_suffix(site, layers, target_level))
                 label = "%s/%s@%d" % (">".join(layers), site, target_level)
                 if LM.deadlocks:
                     harness.mark_recycle()
@@ -552,6 +651,8 @@ def run_nestedcb(case, res):
 
 
 def run_case(case, res):
+    if case["kind"] == "nestedrace":
+        return run_nested_race(case, res)
     if case["kind"] == "nestedcb":
         return run_nestedcb(case, res)
     if case["kind"] == "pair":
